@@ -70,8 +70,8 @@ Definition cinv (s : nat) (b : bstate) (l : list (token * test)) : Prop :=
               /\ stack3 (b_stack b) = flat_map kt_elems (path_kts l)
               /\ b_comments b = flat_map kt_comments (path_kts l).
 
-Lemma reach_cinv b1 : cinv Table.start_state b1 [] -> forall s b l, reach rP tok_ok b1 s b l ->
-  cinv s b l /\ Forall (fun kt => tok_ok (fst kt) (snd kt)) (path_kts l).
+Lemma reach_cinv b1 : cinv Table.start_state b1 [] -> forall s b l, reach rP tok_made b1 s b l ->
+  cinv s b l /\ Forall (fun kt => tok_made (fst kt) (snd kt)) (path_kts l).
 Proof.
   intros H0 s b l R. induction R as [|s b l x y t b' R IH Hx Hid Hy Ht Hb]; [split; [exact H0 | constructor]|].
   destruct IH as [(rec & Hl & S & Ce & Cc) Ft].
@@ -79,7 +79,7 @@ Proof.
   specialize (G x Hx). rewrite Hid, Hl in G. rewrite forallb_forall in G. specialize (G y Hy).
   destruct (o_prods cpat crfree ctfree (t_kind y) (t_prods y) rec) as [stk'|] eqn:D; [|discriminate].
   destruct (dlookup (t_tgt y) kappa) as [rec'|] eqn:Hl'; [|discriminate].
-  pose proof Ht as [Mt _]. rewrite bops_bsteps in Hb.
+  pose proof Ht as [[Mt _] _]. rewrite bops_bsteps in Hb.
   destruct (o_steps ic3 cpat crfree ctfree fresh3 c_nodup c_rfree c_tfree c_trans c_fresh _ _ Mt _ _ _ _ _ D Hb S) as (S' & _ & C').
   assert (Pk : path_kts (l ++ [(t, y)]) = path_kts l ++ repeat (t_kind y, t) (count_pb (t_prods y))).
   { unfold path_kts. rewrite flat_map_app. cbn. now rewrite app_nil_r. }
@@ -145,14 +145,14 @@ Qed.
 Theorem source_conservation stop m b src d m1 b1 n : wf_ms m -> parse_source stop m b src = POk d m1 b1 n ->
   exists kts : list (kind * token),
     map (fun kt => tkey (snd kt)) kts = source_keys src
-    /\ Forall (fun kt => tok_ok (fst kt) (snd kt)) kts
+    /\ Forall (fun kt => tok_made (fst kt) (snd kt)) kts
     /\ doc_elems d = flat_map kt_elems kts
     /\ doc_comments d = flat_map kt_comments kts.
 Proof.
   intros W. unfold parse_source. pose proof (source_delivery stop m b src W) as Dl. unfold parse_tokens, parse_tokens_with in *.
   destruct (parse rP stop (scan src) (reset_matcher dialects m) (reset_builder b)) as [[] c|e c|es c|c|] eqn:P; try discriminate.
   destruct (builder_result (bs c)) as [d0|] eqn:Br; [|discriminate]. intros H. inversion H; subst. clear H.
-  destruct (path_replay rP tok_ok pipe_match pipe_eof' _ _ _ _ _ P) as (b2 & s & b3 & l & Hs & R & He & Hend & Hev).
+  destruct (path_replay rP wf_ms wf_ms_kept tok_made pipe_made pipe_eof' _ _ _ _ _ (proj1 (reset_matcher_wf' m W)) P) as (b2 & s & b3 & l & Hs & R & He & Hend & Hev).
   destruct (reach_cinv b2 (start_cinv _ _ Hs) s b3 l R) as [(rec & Hl & S & Ce & Cc) Ft].
   destruct (ends_doc3 s He) as (f & Hf & Hr). rewrite Hf in Hl. inversion Hl; subst rec.
   exists (path_kts l). split; [|split; [exact Ft | exact (final_conserve _ _ _ _ _ S Hr Ce Cc Hend Br)]].
